@@ -66,4 +66,15 @@ def streams(rng, tier, kinds=("flush", "consol", "xorb", "cput")):
         n = {"flush": 4, "consol": 8, "xorb": 2, "cput": 8}[kind] * (5 if big else 1)
         for i in range(n):
             cases.append({"id": "%s%d" % (kind, i), "text": gen_case(rng, kind, big), "meta": {"kind": kind}})
-    return [{"name": "crash", "cases": cases, "prep": "crash", "prep_impl": True, "timeout": 1500, "env": {"XET_VERIF_SKIP_SHARD_INTEGRITY_CHECK": "1"}}]
+    out = [{"name": "crash", "cases": cases, "prep": "crash", "prep_impl": True, "timeout": 1500, "env": {"XET_VERIF_SKIP_SHARD_INTEGRITY_CHECK": "1"}}]
+    if "consol" in kinds:
+        # two crashes: the operation is run again on what the first crash left, and interrupted again at every call
+        # (quadratic in the number of calls: small directories that merge completely)
+        two = []
+        for i in range(2 if not big else 8):
+            pool = []
+            groups = [shard_ops(rng, rng.randrange(0, 3), rng.randrange(1, 3), pool) for _ in range(rng.choice([2, 3]))]
+            two.append({"id": "twice%d" % i, "text": "consol %d | " % (10 ** 9) + " | == | ".join(" | ".join(g) for g in groups), "meta": {"kind": "consol2"}})
+        out.append({"name": "crash", "cases": two, "prep": "crash", "prep_impl": True, "timeout": 1500,
+                    "env": {"XET_VERIF_SKIP_SHARD_INTEGRITY_CHECK": "1", "XV_CRASH_TWO_LEVEL": "1"}})
+    return out
